@@ -88,12 +88,12 @@ func boltReadOnlyRule(c *Ctx, rule string, re *Reach) {
 
 // readEntries: everything a reader of an index can call.
 func readEntries(c *Ctx) []*ssa.Function {
-	w := c.w
 	out := []*ssa.Function{c.a.OpenIndex, c.a.OpenFromDB, c.a.WithCache, c.a.WithPreloaded, c.a.WithMetrics, c.a.Execute, c.a.GetSchema, c.a.IndexClose,
 		c.a.ServerQuery, c.a.SchemaCmd, c.a.DrvOpen, c.a.LRUGet, c.a.LRUPut}
 	// all methods of the driver's file connection, statement and rows types (invoked by database/sql)
-	for _, tn := range []string{"fileConn", "fileStmt", "rows", "updogDriver"} {
-		n := w.namedType(pkgDriver, tn)
+	// (these driver types are found by the database/sql/driver interfaces they implement, rules_ag10.go; a missing one is
+	// reported by C16.readonly's need of the driver anchors)
+	for _, n := range []*types.Named{c.a.FileConnT, c.a.FileStmtT, c.a.RowsT, c.a.DriverT} {
 		if n == nil {
 			continue
 		}
@@ -113,7 +113,8 @@ func readEntries(c *Ctx) []*ssa.Function {
 }
 
 func runC16(c *Ctx) {
-	if !c.need("C16.readonly", c.a.OpenIndex, c.a.OpenFromDB, c.a.Execute, c.a.GetSchema, c.a.IndexClose, c.a.ServerQuery, c.a.SchemaCmd, c.a.DrvOpen, c.a.OpenFileFn) {
+	if !c.need("C16.readonly", c.a.OpenIndex, c.a.OpenFromDB, c.a.Execute, c.a.GetSchema, c.a.IndexClose, c.a.ServerQuery, c.a.SchemaCmd, c.a.DrvOpen, c.a.OpenFileFn,
+		c.a.DriverT, c.a.FileConnT, c.a.FileStmtT, c.a.RowsT) {
 		return
 	}
 	re := c.w.reach(readEntries(c)...)
